@@ -6,6 +6,7 @@ import os
 import shutil
 import tempfile
 import lib
+import c08gen
 from lib import esc, unesc
 
 BIN = "c08"
@@ -1267,7 +1268,7 @@ def run(ctx):
     if not ok:
         lib.log(out[-4000:])
         ctx.broken.append("harness c08 does not build against the current tree: " + lib._first_errors(out))
-    ctx.proof_stage()
+    ctx.proof_stage(gens=[c08gen.gen_pattern_tables])
     if not ok:
         return
     stage_T(ctx)
